@@ -49,7 +49,7 @@ func C08Shape(r *rec.Rand, k int) *Scenario {
 	o.MaxTuples = 14
 	o.Invalid = r.Chance(1, 4)
 	g := &gen{r: r, o: o, s: &Scenario{}}
-	if r.Chance(1, 4) {
+	if r.Chance(1, 2) {
 		g.cond = []string{"c1"}
 	}
 	g.s.Conds = g.cond
